@@ -7,6 +7,7 @@ from pathlib import Path
 
 from lcmsa.alg import METHODS, _short, first_difference, hoist, lib_op, norm
 from lcmsa.core import AnalysisError, callee_name, is_term, walk
+from lcmsa.editdist import local_cost
 from lcmsa.report import Ctx, rule
 
 REF = "lcmref.kernels"
@@ -220,42 +221,41 @@ def compare(ctx: Ctx, actual_q: str, ref_name: str, what: str, *, decorated=Fals
     if fa.unsupported:
         ctx.undecided(key, f"{actual_q} uses a statement outside the vocabulary ({fa.unsupported[0][0]})", where)
         return
-    pa = [("result", fa.ret)]
-    pr = [("result", fr.ret)]
     ctx.count("kernels")
-    bad = None
-    vocab = True
     memo: dict = {}
+    covered = covered_functions(prog)
 
-    def lc(x):
-        return loop_content(prog, comprehend(prog, prog.expand(x)), 0, memo)
+    def _pre(full):
+        def pre(x):
+            x = comprehend(prog, prog.expand(x, skip=frozenset() if full else covered - {actual_q, ref_q}, loops=full))
+            if full:
+                x = anon_fn(beta_partial(content(prog, x, 0, None, True)))
+            return x
+        return pre
 
-    def from_ref(x):
-        return _retarget(prog, _rename(lc(x), ref_q, actual_q, nr_names, na_names), ia.module)
+    pres = {False: _pre(False), True: _pre(True)}
 
-    for (label, ta), (_l, tr) in zip(pa, pr, strict=True):
-        ra, rr = lc(ta), from_ref(tr)
-        a, r = norm(ra), norm(rr)
-        vocab = vocab and in_vocab(ra)
-        if a != r and bad is None:
-            bad = (label, first_difference(a, r, label), ra, rr)
-    ga = [(tuple(norm(lc(c)) for c in conds if c[0] != "in-loop"), _exc_class(e)) for conds, e, _n in fa.raises]
-    gr = [(tuple(norm(from_ref(c)) for c in conds if c[0] != "in-loop"), _exc_class(e)) for conds, e, _n in fr.raises]
-    if bad is None and ga != gr:
-        d = next((f"guard {i + 1}: {first_difference(x, y, 'condition')}" for i, (x, y) in enumerate(zip(ga, gr, strict=False)) if x != y),
-                 f"{len(ga)} raise sites vs {len(gr)} in the reference")
-        bad = ("guards", d, str(ga)[:300], str(gr)[:300])
-    ra = fa.ret
-    if bad is None:
-        ctx.ob(key, True, where, f"{what}: normal form equals the reference form", lhs=ra, rhs="reference " + ref_name)
-    elif _loop_shape(prog, actual_q) != _loop_shape(prog, ref_q):
-        ctx.undecided(key, f"{what}: differs from the reference form and its loops were restructured "
-                      f"({_loop_shape(prog, actual_q)[:6]} vs {_loop_shape(prog, ref_q)[:6]}): not decided by comparison", where)
-    elif vocab:
-        ctx.ob(key, False, where, f"{what}: {bad[0]} differs from the reference form at {bad[1]}", lhs=bad[2], rhs=bad[3])
-    else:
-        ctx.undecided(key, f"{what}: {bad[0]} differs from the reference form at {bad[1]}, but the function uses "
-                      "constructs outside the analyser's vocabulary", where)
+    def lc(x, full):
+        return loop_content(prog, pres[full](x), 0, memo, (), pres[full])
+
+    def from_ref(x, full):
+        return _retarget(prog, _rename(lc(x, full), ref_q, actual_q, nr_names, na_names), ia.module)
+
+    vocab = in_vocab(lc(fa.ret, False))
+
+    def level(full):
+        out = []
+        pa_, pr_ = renumber_bv(norm(lc(fa.ret, full))), renumber_bv(norm(from_ref(fr.ret, full)))
+        a_, r_ = hoist(pa_), hoist(pr_)
+        if a_ != r_:
+            out.append(("result", a_, r_, pa_, pr_))
+        ga = [(tuple(hoist(renumber_bv(norm(lc(c, full)))) for c in conds if c[0] != "in-loop"), _exc_class(e)) for conds, e, _n in fa.raises]
+        gr = [(tuple(hoist(renumber_bv(norm(from_ref(c, full)))) for c in conds if c[0] != "in-loop"), _exc_class(e)) for conds, e, _n in fr.raises]
+        if ga != gr and not guards_equivalent(ga, gr):
+            out.append(("guards", tuple(ga), tuple(gr), tuple(ga), tuple(gr)))
+        return out
+
+    _judge(ctx, key, where, what, level, vocab, _loop_shape(prog, actual_q) != _loop_shape(prog, ref_q), fa.ret, "reference " + ref_name)
     if decorated:
         mfa = prog.module_frame(ia.module).env.get(ia.node.name)
         mfr = prog.module_frame(REF).env.get(ir.node.name)
@@ -548,7 +548,31 @@ def _has_loop_terms(t):
     return any(is_term(x) and x[0] in ("loopvar", "carried", "loopout") and not str(x[1]).startswith("#") for x in walk(t))
 
 
-def content(prog, t, depth=0, covered=None):
+def anon_fn(t):
+    """Positional parameters of function values by position, not by name (a renamed parameter of a helper
+    that is passed around as a value is the same function for positional callers)."""
+    if not isinstance(t, tuple):
+        return t
+    t = tuple(anon_fn(x) if isinstance(x, tuple) else x for x in t)
+    if is_term(t) and t[0] == "fn" and len(t) == 5:
+        tagname = None
+        for x in walk(t[2:]):
+            if x[0] == "param" and isinstance(x[1], str) and x[1].startswith("#fn"):
+                tagname = x[1] if tagname is None else min(tagname, x[1])
+        m, sig = {}, []
+        for i, (kind, name, default) in enumerate(t[1]):
+            if kind in ("pos", "arg", "var", "kw") and not str(name).startswith("#p"):
+                new = f"#p{i}"
+                if tagname is not None:
+                    m[("param", tagname, name)] = ("param", tagname, new)
+                sig.append((kind, new, default))
+            else:
+                sig.append((kind, name, default))
+        return ("fn", tuple(sig), *_subst_params(t[2:], m))
+    return t
+
+
+def content(prog, t, depth=0, covered=None, every=False):
     """Replace function values by what they compute: ('lambda', signature, result, effects, guards).
 
     Closures (captured names already replaced by the captured values) and module-level lcm helpers
@@ -562,27 +586,39 @@ def content(prog, t, depth=0, covered=None):
         if t[0] == "closure" and len(t) == 3 and isinstance(t[2], int):
             info = prog.closures[t[2]][0]
             fr = prog.closure_frame(t[2])
-        elif t[0] == "func" and len(t) == 2 and t[1] in prog.funcs and t[1] not in covered \
-                and t[1].startswith("lcm.") and prog.funcs[t[1]].parent is None and prog.funcs[t[1]].cls is None:
+        elif t[0] == "func" and len(t) == 2 and t[1] in prog.funcs and (every or t[1] not in covered) \
+                and t[1].startswith(("lcm.", "lcmref.")) and prog.funcs[t[1]].parent is None and prog.funcs[t[1]].cls is None:
             info = prog.funcs[t[1]]
             fr = prog.frame(t[1])
-        if fr is not None and not fr.unsupported and fr.ret is not None and (t[0] == "closure" or not info.node.decorator_list):
+        decorated = None
+        if fr is not None and t[0] == "func" and info.node.decorator_list:
+            decorated = prog.module_frame(info.module).env.get(info.node.name) if every else None
+            if decorated is None:
+                fr = None
+        if fr is not None and not fr.unsupported and fr.ret is not None:
             q = info.qualname
             tag = f"#fn{depth}"
 
             def lower(x):
-                x = prog.expand(x, skip=covered)
+                x = prog.expand(x, skip=frozenset() if every else covered, loops=every)
                 x = comprehend(prog, x)
-                x = content(prog, x, depth + 1, covered)
+                x = content(prog, x, depth + 1, covered, every)
                 return _reparam(x, q, tag)
 
             ret = lower(fr.ret)
             eff = tuple(lower(e) for _c, e, _n in fr.effects if not _is_logging(e) and not _is_append_to_local(e, fr))
             guards = tuple((tuple(lower(c) for c in conds if c[0] != "in-loop"), _exc_class(e)) for conds, e, _n in fr.raises)
             if not _has_loop_terms((ret, eff, guards)):
-                return ("fn", _sig_of(info.node), ret, ("tuple", eff), guards)
+                fn = ("fn", _sig_of(info.node), ret, ("tuple", eff), guards)
+                if decorated is not None:
+                    # the module-level name denotes the decorated function
+                    return _subst_params_any(content(prog, _mask_func(decorated, q), depth + 1, covered, every), {("func", "<this function>"): fn})
+                return fn
         return t
-    return tuple(content(prog, x, depth, covered) if isinstance(x, tuple) else x for x in t)
+    if is_term(t) and t[0] == "call" and len(t) == 4 and is_term(t[1]) and t[1][0] == "func":
+        # a function that is CALLED here is not a function value: it stays a call (inlined by expand where possible)
+        return ("call", t[1], *(content(prog, x, depth, covered, every) for x in t[2:]))
+    return tuple(content(prog, x, depth, covered, every) if isinstance(x, tuple) else x for x in t)
 
 
 def _reparam(t, q, tag):
@@ -603,9 +639,27 @@ def beta_partial(t):
         return t
     if t[0] == "setattr" and len(t) == 4 and t[2] in _META_ATTRS:
         return t[1]
+    if t[0] == "call" and any(is_term(a) and a[0] == "star" and is_term(a[1]) and a[1][0] in ("tuple", "list")
+                              and all(x[0] != "star" for x in a[1][1]) for a in t[2]):
+        # f(*(a, b)) == f(a, b)
+        flat = []
+        for a in t[2]:
+            if is_term(a) and a[0] == "star" and is_term(a[1]) and a[1][0] in ("tuple", "list") and all(x[0] != "star" for x in a[1][1]):
+                flat.extend(a[1][1])
+            else:
+                flat.append(a)
+        return beta_partial(("call", t[1], tuple(flat), t[3]))
+    if t[0] == "call" and callee_name(t) == "functools.update_wrapper" and len(t[2]) == 2 and not t[3]:
+        # update_wrapper(w, f) returns w with f's metadata  ==  wraps(f)(w)
+        return beta_partial(("call", ("call", ("glob", "functools.wraps"), (t[2][1],), ()), (t[2][0],), ()))
+    if t[0] == "call" and is_term(t[1]) and t[1][0] == "call" and callee_name(t[1]) == "dags.signature.with_signature" \
+            and len(t[2]) == 1 and is_term(t[2][0]) and t[2][0][0] == "call" and is_term(t[2][0][1]) and t[2][0][1][0] == "call" \
+            and callee_name(t[2][0][1]) == "functools.wraps" and len(t[2][0][2]) == 1:
+        # with_signature(args=A)(wraps(g)(F)): with_signature sets the signature itself and copies only the name
+        return ("call", t[1], (t[2][0][2][0],), t[3])
     if t[0] == "call" and callee_name(t) == "dags.signature.with_signature" and len(t[2]) == 1:
         # with_signature(f, args=A) == with_signature(args=A)(f)
-        return ("call", ("call", t[1], (), t[3]), (t[2][0],), ())
+        return beta_partial(("call", ("call", t[1], (), t[3]), (t[2][0],), ()))
     if t[0] == "call" and callee_name(t) == "functools.partial" and t[2] and is_term(t[2][0]) and t[2][0][0] == "fn" \
             and len(t[2][0]) == 5 and all(k is not None for k, _ in t[3]):
         lam = t[2][0]
@@ -648,7 +702,7 @@ def _subst_params(t, m):
 # ---------------------------------------------------------------------------------------
 
 
-def loop_content(prog, t, depth=0, memo=None, stack=()):
+def loop_content(prog, t, depth=0, memo=None, stack=(), pre=None):
     """('loopout', lid, name) -> ('fold', iterable, ((init, update), ...)) over the dependency closure of `name`.
 
     Self references become positional (`('carried', '#L<depth>', k)`, `('loopvar', '#L<depth>', path)`), so the
@@ -662,14 +716,14 @@ def loop_content(prog, t, depth=0, memo=None, stack=()):
         if t[1] in stack:
             return t  # reference to an enclosing loop under construction: made positional by its builder
         if t[0] == "loopout":
-            r = _fold_of(prog, t[1], t[2], depth, memo, stack)
+            r = _fold_of(prog, t[1], t[2], depth, memo, stack, pre)
             return r if r is not None else t
         if t[0] == "carried":
-            r = _fold_of(prog, t[1], t[2], depth, memo, stack)
+            r = _fold_of(prog, t[1], t[2], depth, memo, stack, pre)
             return ("loopstate", r) if r is not None else t
         lp = prog.loops[t[1]]
         path = prog.loopvar_paths.get((t[1], t[2]), t[2])
-        return ("loopvar", "#it", path, loop_content(prog, comprehend(prog, lp.iter), depth + 1, memo, stack))
+        return ("loopvar", "#it", path, loop_content(prog, comprehend(prog, pre(lp.iter) if pre else lp.iter), depth + 1, memo, stack, pre))
     if is_term(t) and t[0] == "call" and callee_name(t) == "functools.reduce" and len(t[2]) == 3 and not t[3] \
             and is_term(t[2][0]) and t[2][0][0] == "fn" and len(t[2][0]) == 5:
         # functools.reduce(f, xs, init)  ==  acc = init; for x in xs: acc = f(acc, x)
@@ -679,14 +733,14 @@ def loop_content(prog, t, depth=0, memo=None, stack=()):
         if len(pos) == 2 and len(fn[1]) == 2 and fn[3] == ("tuple", ()) and not fn[4] and tagname is not None:
             tag = f"#L{depth}"
             m = {("param", tagname, pos[0][1]): ("carried", tag, 0), ("param", tagname, pos[1][1]): ("loopvar", tag, ())}
-            body = loop_content(prog, _subst_params(fn[2], m), depth + 1, memo, stack)
-            return ("fold", loop_content(prog, xs, depth + 1, memo, stack),
-                    ((loop_content(prog, init, depth + 1, memo, stack), body),))
-    return tuple(loop_content(prog, x, depth, memo, stack) if isinstance(x, tuple) else x for x in t)
+            body = loop_content(prog, _subst_params(fn[2], m), depth + 1, memo, stack, pre)
+            return ("fold", loop_content(prog, xs, depth + 1, memo, stack, pre),
+                    ((loop_content(prog, init, depth + 1, memo, stack, pre), body),))
+    return tuple(loop_content(prog, x, depth, memo, stack, pre) if isinstance(x, tuple) else x for x in t)
 
 
-def _fold_of(prog, lid, name, depth, memo, stack):
-    key = (lid, name, depth, stack)
+def _fold_of(prog, lid, name, depth, memo, stack, pre=None):
+    key = (lid, name, depth, stack, id(pre))
     if key in memo:
         return memo[key]
     lp = prog.loops[lid]
@@ -696,7 +750,7 @@ def _fold_of(prog, lid, name, depth, memo, stack):
     inner = (*stack, lid)
 
     def deep(x):
-        return loop_content(prog, comprehend(prog, x), depth + 1, memo, inner)
+        return loop_content(prog, comprehend(prog, pre(x) if pre else x), depth + 1, memo, inner, pre)
 
     order, nexts, i = [name], {}, 0
     while i < len(order):
@@ -721,7 +775,7 @@ def _fold_of(prog, lid, name, depth, memo, stack):
         return tuple(sub(y) if isinstance(y, tuple) else y for y in x)
 
     parts = tuple((sub(deep(lp.init.get(d, ("undef",)))), sub(nexts[d])) for d in order)
-    r = _fuse_fold(("fold", sub(loop_content(prog, comprehend(prog, lp.iter), depth + 1, memo, stack)), parts), tag)
+    r = _fuse_fold(("fold", sub(loop_content(prog, comprehend(prog, pre(lp.iter) if pre else lp.iter), depth + 1, memo, stack, pre)), parts), tag)
     memo[key] = r
     return r
 
@@ -805,6 +859,17 @@ def renumber_bv(t, level=1, env=None):
         elt = t[2]
         elt2 = tuple(renumber_bv(x, level + 1, env2) for x in elt) if t[1] == "dict" else renumber_bv(elt, level + 1, env2)
         return ("comp", t[1], elt2, tuple(gens))
+    if is_term(t) and t[0] == "op" and len(t) == 5 and t[1] == "count" and dict(t[2]).keys() >= {"where", "for", "in"}:
+        # count(where c for tg in it): a binder like a comprehension
+        d = dict(t[2])
+        env2 = dict(env)
+        it2 = renumber_bv(d["in"], level + 1, env2)
+        k = 0
+        for b in [x for x in walk(d["for"]) if x[0] == "bv"] if is_term(d["for"]) else []:
+            env2[b] = ("bv", level, k)
+            k += 1
+        d2 = {"where": renumber_bv(d["where"], level + 1, env2), "for": renumber_bv(d["for"], level + 1, env2), "in": it2}
+        return ("op", "count", tuple(sorted(d2.items())), t[3], t[4])
     return tuple(renumber_bv(x, level, env) if isinstance(x, tuple) else x for x in t)
 
 
@@ -910,11 +975,27 @@ def compare_factory(ctx: Ctx, actual_q: str, ref_name: str, what: str, *, soft: 
 
     lc_memo: dict = {}
 
-    def prep(t, idx, is_ref):
+    def _pre(full):
+        def pre(x):
+            x = prog.expand(x, skip=frozenset() if full else covered_functions(prog), loops=full)
+            if full:
+                x = anon_fn(beta_partial(content(prog, comprehend(prog, x), 0, None, True)))
+            else:
+                # closures by what they compute (captured values substituted), not by where they are defined
+                x = beta_partial(content(prog, comprehend(prog, x), 0, None, False))
+            return x
+        return pre
+
+    pre_plain, pre_full = _pre(False), _pre(True)
+
+    def prep(t, idx, is_ref, full=False):
         # helpers that have a reviewed form of their own stay opaque (they are compared separately); any other
-        # helper (e.g. one that a refactoring extracted) is inlined
-        t = prog.expand(t, skip=covered_functions(prog))
-        t = renumber_bv(fuse_comps(loop_content(prog, comprehend(prog, t), 0, lc_memo)))
+        # helper (e.g. one that a refactoring extracted) is inlined.  full: every helper is inlined, also those
+        # with loops (used when the first comparison fails: code may have moved across reviewed helpers)
+        # full: function VALUES (helpers passed to vmap, partial, ...) by what they compute, whatever they are called
+        pre_f = pre_full if full else pre_plain
+        t = pre_f(t)
+        t = renumber_bv(fuse_comps(loop_content(prog, comprehend(prog, t), 0, lc_memo, (), pre_f)))
         t = reify_closures(prog, t)
         t = strip_messages(canon(t, idx, is_ref))
         return resort_caps(_retarget(prog, t, ia.module) if is_ref else t)
@@ -941,6 +1022,8 @@ def compare_factory(ctx: Ctx, actual_q: str, ref_name: str, what: str, *, soft: 
         for i, c in enumerate(closures):
             cf = prog.closure_frame(c)
             cq = prog.closures[c][0].qualname
+            if content(prog, ("closure", cq, c), 0, None, False)[0] == "fn":
+                continue  # compared as part of the value it is used in (closures by content)
             out.append((f"closure {i + 1} result", cf.ret))
             out += [(f"closure {i + 1} {l}", t) for l, t in side_effects(cf, cq)]
             guards += [(conds, e) for conds, e, _n in cf.raises]
@@ -951,51 +1034,89 @@ def compare_factory(ctx: Ctx, actual_q: str, ref_name: str, what: str, *, soft: 
     ctx.count("kernels")
     if soft:
         _soft_verdict(ctx, prog, key, where, what, pa, pr, ga, gr,
-                      lambda t, is_ref: hoist(norm(prep(t, idx_a if not is_ref else idx_r, is_ref))),
-                      lambda t, is_ref: norm(prep(t, idx_a if not is_ref else idx_r, is_ref)))
+                      lambda t, is_ref: hoist(renumber_bv(norm(prep(t, idx_a if not is_ref else idx_r, is_ref)))),
+                      lambda t, is_ref: renumber_bv(norm(prep(t, idx_a if not is_ref else idx_r, is_ref))))
         return
     if [l for l, _ in pa] != [l for l, _ in pr]:
-        ctx.undecided(key, f"{what}: loop structure / loop-carried names differ from the reference", where)
+        ctx.undecided(key, f"{what}: number of nested functions differs from the reference", where)
         return
-    bad = None
-    vocab = True
-    total_sites, total_size = 0, 0
-    for (label, ta), (_l, tr) in zip(pa, pr, strict=True):
-        ra, rr = prep(ta, idx_a, False), prep(tr, idx_r, True)
-        a, r = hoist(norm(ra)), hoist(norm(rr))
-        vocab = vocab and in_vocab(ra)
-        if a != r:
-            n_sites, sz = diff_sites(a, r)
-            total_sites += n_sites
-            total_size += sz
-            if bad is None:
-                bad = (label, first_difference(a, r, label), ra, rr)
-    na_g = [(tuple(hoist(norm(prep(c, idx_a, False))) for c in conds if c[0] != "in-loop"), _exc_class(e)) for conds, e in ga]
-    nr_g = [(tuple(hoist(norm(prep(c, idx_r, True))) for c in conds if c[0] != "in-loop"), _exc_class(e)) for conds, e in gr]
-    if na_g != nr_g and guards_equivalent(na_g, nr_g):
-        nr_g = na_g  # same decision function over the same atomic conditions
-    if na_g != nr_g:
-        n_sites, sz = diff_sites(tuple(na_g), tuple(nr_g))
-        total_sites += n_sites
-        total_size += sz
-        if bad is None:
-            d = next((f"guard {i + 1}: {first_difference(x, y, 'condition')}" for i, (x, y) in enumerate(zip(na_g, nr_g, strict=False)) if x != y),
-                     f"{len(na_g)} raise sites vs {len(nr_g)} in the reference")
-            bad = ("guards", d, str(na_g)[:300], str(nr_g)[:300])
+    vocab = all(in_vocab(prep(ta, idx_a, False)) for _l, ta in pa)
+
+    def level(full):
+        """[(label, hoisted a, hoisted r, plain a, plain r)] for the pieces that differ at this inlining level."""
+        out = []
+        for (label, ta), (_l, tr) in zip(pa, pr, strict=True):
+            pa_, pr_ = renumber_bv(norm(prep(ta, idx_a, False, full))), renumber_bv(norm(prep(tr, idx_r, True, full)))
+            a_, r_ = hoist(pa_), hoist(pr_)
+            if a_ != r_:
+                out.append((label, a_, r_, pa_, pr_))
+        na_g = [(tuple(hoist(renumber_bv(norm(prep(c, idx_a, False, full)))) for c in conds if c[0] != "in-loop"), _exc_class(e)) for conds, e in ga]
+        nr_g = [(tuple(hoist(renumber_bv(norm(prep(c, idx_r, True, full)))) for c in conds if c[0] != "in-loop"), _exc_class(e)) for conds, e in gr]
+        if na_g != nr_g and not guards_equivalent(na_g, nr_g):
+            out.append(("guards", tuple(na_g), tuple(nr_g), tuple(na_g), tuple(nr_g)))
+        return out
+
     shape_a = [_loop_shape(prog, actual_q)] + [_loop_shape(prog, prog.closures[c][0].qualname) for c in ca]
     shape_r = [_loop_shape(prog, ref_q)] + [_loop_shape(prog, prog.closures[c][0].qualname) for c in cr]
-    if bad is None:
-        ctx.ob(key, True, where, f"{what}: function, closures, effects and guards equal the reference form",
-               lhs=fa.ret, rhs="reference " + ref_name)
-    elif not vocab:
-        ctx.undecided(key, f"{what}: {bad[0]} differs ({bad[1]}) but uses constructs outside the vocabulary", where)
-    elif shape_a != shape_r:
-        ctx.undecided(key, f"{what}: differs from the reference form and its loops were restructured: not decided by comparison", where)
-    elif soft and not _local_difference(total_sites, total_size):
-        ctx.undecided(key, f"{what}: the function was restructured ({total_sites} differing sites, first: {bad[0]} at {bad[1]}); "
-                      "its dataflow obligations decide the property, this comparison does not", where)
+    _judge(ctx, key, where, what, level, vocab, shape_a != shape_r, fa.ret, "reference " + ref_name)
+
+
+LOCAL_EDIT = 30
+
+
+def _judge(ctx, key, where, what, level, vocab, loops_restructured, lhs, rhs):
+    """Verdict of a comparison with a reviewed form.
+
+    equal normal forms (helpers with a reviewed form opaque)            -> PROVED
+    equal after inlining every helper on both sides                      -> PROVED
+    all deviations atomic, or the unshared part of the two forms is at
+    most LOCAL_EDIT nodes (a slip: wrong variable, dropped operand, ...) -> REFUTED
+    anything else (the code was written differently)                     -> UNDECIDED
+    """
+    d1 = level(False)
+    if not d1:
+        ctx.ob(key, True, where, f"{what}: function, closures, effects and guards equal the reference form", lhs=lhs, rhs=rhs)
+        return
+    try:
+        d2 = level(True)
+    except (AnalysisError, RecursionError):
+        d2 = d1
+    if not d2:
+        ctx.ob(key, True, where, f"{what}: equals the reference form once the helpers are inlined on both sides", lhs=lhs, rhs=rhs)
+        return
+    if not vocab:
+        ctx.undecided(key, f"{what}: differs from the reference form ({d1[0][0]}) but uses constructs outside the vocabulary", where)
+        return
+
+    def measure(ds):
+        atoms, cost = [], 0
+        for label, a_, r_, pa_, pr_ in ds:
+            d = atomic_diffs(a_, r_, label)
+            if d is None:
+                d = atomic_diffs(pa_, pr_, label)
+            atoms.append(d)
+            cost += min(local_cost(a_, r_), local_cost(pa_, pr_))
+        return atoms, cost
+
+    (at1, c1), (at2, c2) = measure(d1), measure(d2)
+    import os
+
+    if os.environ.get("LCMSA_DEBUG_JUDGE"):
+        for nm, ds, c in (("L1", d1, c1), ("L2", d2, c2)):
+            print("JUDGE", key, nm, "cost", c, [(lab, first_difference(a, r, lab)[:300]) for lab, a, r, _x, _y in ds])
+    ds, atoms, cost = (d1, at1, c1) if c1 <= c2 else (d2, at2, c2)
+    label, a_, r_, _pa, _pr = ds[0]
+    first = first_difference(a_, r_, label)
+    if all(d is not None for d in atoms):
+        uniq = list(dict.fromkeys(x for d in atoms for x in d))
+        ctx.ob(key, False, where, f"{what}: same structure as the reference form but {len(uniq)} atomic deviation(s): " + "; ".join(uniq[:4]),
+               lhs=_short(a_), rhs=_short(r_))
+    elif cost <= LOCAL_EDIT and not loops_restructured:
+        ctx.ob(key, False, where, f"{what}: deviates locally from the reference form ({cost} unshared nodes; first at {first})",
+               lhs=_short(a_), rhs=_short(r_))
     else:
-        ctx.ob(key, False, where, f"{what}: {bad[0]} differs from the reference form at {bad[1]}", lhs=bad[2], rhs=bad[3])
+        ctx.undecided(key, f"{what}: written differently from the reference form ({cost} unshared nodes{', loops restructured' if loops_restructured else ''}; "
+                      f"first difference at {first}): not decided by comparison", where)
 
 
 def _lifted_equal(prog, fa, fr, ia, ir, actual_q, ref_q):
@@ -1048,6 +1169,97 @@ def diff_sites(a, b):
                 sz += s_
         return n, sz
     return 1, max(_size(a), _size(b))
+
+
+def site_sizes(a, b, out=None):
+    """[(size of the actual sub-term, size of the reference sub-term)] for every minimal differing site."""
+    out = [] if out is None else out
+    if a == b:
+        return out
+    if isinstance(a, tuple) and isinstance(b, tuple) and len(a) == len(b) and len(a) > 0 and \
+            (not isinstance(a[0], str) or a[0] == b[0]):
+        for x, y in zip(a, b, strict=True):
+            if x != y:
+                if isinstance(x, tuple) and isinstance(y, tuple):
+                    site_sizes(x, y, out)
+                else:
+                    out.append((_size(x), _size(y)))
+        return out
+    out.append((_size(a), _size(b)))
+    return out
+
+
+def edit_cost(a, b, _memo=None):
+    """Number of term nodes that have to be deleted/inserted to turn `a` into `b`: children of the same
+    construct are aligned (longest common subsequence on equality, then position-wise), a term that
+    occurs unchanged inside its counterpart (a wrapper added or removed) costs only the wrapper."""
+    memo = _memo if _memo is not None else {}
+    if a == b:
+        return 0
+    if not isinstance(a, tuple) or not isinstance(b, tuple):
+        return _size(a) + _size(b) if (isinstance(a, tuple) or isinstance(b, tuple)) else 1
+    key = (id(a), id(b))
+    if key in memo:
+        return memo[key]
+    sa, sb = _size(a), _size(b)
+    best = sa + sb
+    # wrapper added / removed
+    if sa < sb and _contains(b, a):
+        best = min(best, sb - sa)
+    elif sb < sa and _contains(a, b):
+        best = min(best, sa - sb)
+    same_head = len(a) > 0 and len(b) > 0 and (not isinstance(a[0], str) or a[0] == b[0]) and \
+        (isinstance(a[0], str) == isinstance(b[0], str))
+    if same_head and best > 1:
+        xs, ys = list(a), list(b)
+        if len(xs) == len(ys):
+            c = 0
+            for x, y in zip(xs, ys, strict=True):
+                if x != y:
+                    c += edit_cost(x, y, memo)
+                    if c >= best:
+                        break
+            best = min(best, c)
+        else:
+            # align equal children (LCS), pair the rest in order, the surplus is inserted/deleted
+            n, m = len(xs), len(ys)
+            if n * m <= 4000:
+                L = [[0] * (m + 1) for _ in range(n + 1)]
+                for i in range(n - 1, -1, -1):
+                    for j in range(m - 1, -1, -1):
+                        L[i][j] = L[i + 1][j + 1] + 1 if xs[i] == ys[j] else max(L[i + 1][j], L[i][j + 1])
+                i = j = 0
+                ra, rb = [], []
+                while i < n and j < m:
+                    if xs[i] == ys[j]:
+                        i += 1
+                        j += 1
+                    elif L[i + 1][j] >= L[i][j + 1]:
+                        ra.append(xs[i])
+                        i += 1
+                    else:
+                        rb.append(ys[j])
+                        j += 1
+                ra += xs[i:]
+                rb += ys[j:]
+                c = 0
+                for x, y in zip(ra, rb, strict=False):
+                    c += edit_cost(x, y, memo)
+                for x in ra[len(rb):]:
+                    c += _size(x)
+                for y in rb[len(ra):]:
+                    c += _size(y)
+                best = min(best, c)
+    memo[key] = best
+    return best
+
+
+def _contains(big, small):
+    if big == small:
+        return True
+    if not isinstance(big, tuple):
+        return False
+    return any(_contains(x, small) for x in big if isinstance(x, tuple))
 
 
 def _size(t):
@@ -1223,11 +1435,21 @@ def _atoms(c, out):
             _atoms(x, out)
     elif is_term(c) and c[0] == "cmp" and c[1] == ("!=",):
         out.add(("cmp", ("==",), c[2]))
+    elif is_term(c) and c[0] == "cmp" and len(c[1]) == 1 and c[1][0] in _ORDER_OPS and len(c[2]) == 2:
+        # order comparisons of one pair of operands: two atoms (less, equal), mutually exclusive
+        out.add(("cmp", ("<",), c[2]))
+        out.add(("cmp", ("==",), c[2]))
     else:
         out.add(c)
 
 
+_ORDER_OPS = ("<", "<=", ">", ">=")
+
+
 def _ev(c, val):
+    if is_term(c) and c[0] == "cmp" and len(c[1]) == 1 and c[1][0] in _ORDER_OPS and len(c[2]) == 2:
+        lt, eq = val[("cmp", ("<",), c[2])], val[("cmp", ("==",), c[2])]
+        return {"<": lt, "<=": lt or eq, ">": not lt and not eq, ">=": not lt}[c[1][0]]
     if is_term(c) and c[0] == "not" and len(c) == 2:
         return not _ev(c[1], val)
     if is_term(c) and c[0] == "unop" and c[1] == "not":
@@ -1256,6 +1478,8 @@ def guards_equivalent(ga, gb):
     excl = []
     for i, a in enumerate(atoms):
         for b in atoms[i + 1:]:
+            if a[0] == "cmp" and b[0] == "cmp" and a[2] == b[2] and {a[1], b[1]} == {("<",), ("==",)}:
+                excl.append((a, b))  # x < y and x == y
             if a[0] == "cmp" and b[0] == "cmp" and a[1] == b[1] == ("==",):
                 xa, xb = set(a[2]), set(b[2])
                 common = xa & xb
